@@ -416,3 +416,7 @@ mod tests {
         let _tracker = SessionTracker::new();
     }
 }
+
+// verification hook (guard: cfg(kani), set only by `cargo kani`): harness module lives in /verif
+#[cfg(kani)]
+mod verif_kani;
